@@ -84,6 +84,126 @@ def _rs_file(r, idx):
 BAD_CONFIGS = [{"nesting": {"max_nesting_depth": 0}}, {"dry": {"enabled": True, "min_duplicate_lines": 0}},
                {"srp": {"max_methods": 0}}, {"magic_numbers": {"max_small_integer": -5}}]
 
+# one file per language that gives every registered linter something to report (all linters are on by default, DRY by config),
+# including findings that agree in EVERY field (same rule, line, column, message): the TS/JS analyzers report column 0
+SINK_PY = """\"\"\"kitchen sink {i}\"\"\"
+import re
+import logging
+
+logger = logging.getLogger(__name__)
+
+
+class Helper{i}:
+    def get_name(self):
+        return self._name
+
+    def area(self):
+        return 4242 * 4242
+
+    def scale(self, items):
+        return [i * 3 for i in items]
+
+
+class Stateless{i}:
+    def one(self, a):
+        return a + 1
+
+    def two(self, b):
+        return b * 2
+
+
+def concat_loop_{i}(items):
+    result = ""
+    for item in items:
+        result += str(item); result += str(item)
+    return result
+
+
+def regex_loop_{i}(lines):
+    out = []
+    for line in lines:
+        if re.match(r"^a+", line):
+            out.append(line)
+    return out
+
+
+def embedded_filter_{i}(items):
+    for item in items:
+        if not item.ok:
+            continue
+        handle(item)
+
+
+def lbyl_{i}(d, key):
+    if key in d:
+        return d[key]
+    return None
+
+
+def cqs_mixed_{i}(store, x):
+    store.append(x)
+    total = compute(store)
+    return total
+
+
+def lazy_{i}(x):
+    return x  # noqa
+
+
+def shout_{i}(x, verbose):
+    print(x); print(x)
+    if verbose:
+        logger.info("v")
+    return 17 + 17
+"""
+SINK_TS = """// kitchen sink {i}
+export class Helper{i} {{
+  getName() {{ return this.name; }}
+  area() {{ return 4242 * 4242; }}
+}}
+export function loud{i}(a) {{
+  console.log(a); console.log(a);
+  return foo(977, 977);
+}}
+"""
+SINK_RS = """// kitchen sink {i}
+pub async fn fetch_{i}(items: Vec<String>) -> String {{
+    let data = std::fs::read_to_string("x").unwrap();
+    std::thread::sleep(std::time::Duration::from_secs(1));
+    let mut out = String::new();
+    for it in items.iter() {{
+        let c = it.clone();
+        out.push_str(&c);
+    }}
+    let n: i32 = "5".parse().unwrap(); let m: i32 = "5".parse().unwrap();
+    data
+}}
+"""
+# parents of the scratch project: plain, entries of the hard-coded exclusion table, test markers
+PARENTS = ["", "", "", "", "build", "dist", "venv", "node_modules", ".venv", "tests", "test", "htmlcov"]
+# root configuration files that say something the explicit configuration does not
+ROOT_CONFIGS = [{"nesting": {"max_nesting_depth": 1}}, {"magic_numbers": {"allowed_numbers": [4242, 977, 17, 3, 250]}},
+                {"dry": {"enabled": True, "min_duplicate_lines": 3, "min_duplicate_tokens": 5}},
+                {"print_statements": {"enabled": False}, "nesting": {"max_nesting_depth": 2}}]
+# explicit configurations at the boundary: empty, empty-but-commented file, only sections no linter reads
+EDGE_CONFIGS = [{}, {}, {"unrelated_section": {"x": 1}}, {"rules": {}, "ignore": []}]
+
+
+def _toml(cfg: dict) -> str:
+    out = []
+    for sec, vals in cfg.items():
+        out.append(f"[tool.thailint.{sec}]")
+        for k, v in vals.items():
+            out.append(f"{k} = {json.dumps(v)}")
+        out.append("")
+    return "\n".join(out) + "\n"
+
+
+def root_config_file(rc: dict) -> tuple[str, str]:
+    if rc["kind"] == "pyproject.toml":
+        return "pyproject.toml", _toml(rc["content"])
+    return rc["kind"], json.dumps(rc["content"], indent=1) + "\n"     # JSON is YAML
+
 
 def gen_case(seed: int, i, via: str = "api") -> dict:
     r = rng_for(seed, PROP, i)
@@ -97,25 +217,55 @@ def gen_case(seed: int, i, via: str = "api") -> dict:
     n = max(0, 2 * eff + r.choice([-3, -1, -1, 0, 0, 0, 1, 1, 2, 5]))
     if via == "api" and r.random() < 0.03:
         n = r.choice([0, 1])
-    cfg: dict = {}
-    if r.random() < 0.7:
-        cfg["dry"] = {"enabled": True, "min_duplicate_lines": r.choice([3, 4]), "min_duplicate_tokens": r.choice([5, 10])}
-    if r.random() < 0.25:
-        cfg["stringly_typed"] = {"enabled": False}
-    if r.random() < 0.4:
-        cfg["nesting"] = {"max_nesting_depth": r.choice([1, 2, 3])}
-    bad = via == "api" and r.random() < 0.1
+    # ---- configuration: explicit (ctor / assigned after construction / --config) and/or a root file that differs
+    edge = r.random() < 0.3
+    if edge:
+        cfg = copy.deepcopy(r.choice(EDGE_CONFIGS))
+    else:
+        cfg = {}
+        if r.random() < 0.7:
+            cfg["dry"] = {"enabled": True, "min_duplicate_lines": r.choice([3, 4]), "min_duplicate_tokens": r.choice([5, 10])}
+        if r.random() < 0.25:
+            cfg["stringly_typed"] = {"enabled": False}
+        if r.random() < 0.4:
+            cfg["nesting"] = {"max_nesting_depth": r.choice([1, 2, 3])}
+    bad = via == "api" and not edge and r.random() < 0.1
     if bad:
         cfg.update(copy.deepcopy(r.choice(BAD_CONFIGS)))
+    root_cfg = None
+    if edge or r.random() < 0.3:
+        root_cfg = {"kind": r.choice([".thailint.yaml", ".thailint.yaml", ".thailint.json", "pyproject.toml"]),
+                    "content": copy.deepcopy(r.choice(ROOT_CONFIGS))}
+    cmd = r.choice(["dry", "stringly-typed", "magic-numbers", "magic-numbers"]) if via == "cli" else None
+    if via == "cli":
+        # explicit --config file (inside the project: the CLI takes its directory as the project root) or the root file alone;
+        # `dry` reads --config through its own loader, so it is driven by the root file only
+        config_via = "file" if (cmd != "dry" and (edge or r.random() < 0.5)) else "root"
+        if cmd == "dry" and edge:
+            cfg = {"dry": {"enabled": True, "min_duplicate_lines": 3, "min_duplicate_tokens": 5}}
+        if config_via == "root":
+            root_cfg = {"kind": ".thailint.yaml", "content": cfg}
+    else:
+        config_via = r.choice(["ctor", "ctor", "assign"]) if (cfg or edge) else r.choice(["ctor", "assign", "root"])
+        if config_via == "root" and root_cfg is None:
+            root_cfg = {"kind": ".thailint.yaml", "content": copy.deepcopy(r.choice(ROOT_CONFIGS))}
     crossfile = r.random() < 0.8      # some projects have nothing in common between files
+    extra = (1 if root_cfg else 0) + (1 if config_via == "file" else 0)     # configuration files the directory also holds
+    entry = "dir" if via == "cli" else r.choice(["files", "files", "dir"])
+    n_files = n - extra if entry == "dir" else n
+    sinks = {"py": 0, "ts": 0, "rs": 0}
     files = []
-    n_files = n - 1 if via == "cli" else n   # the CLI target directory also holds .thailint.yaml
     for j in range(max(0, n_files)):
         lang = r.choice(["py", "py", "py", "ts", "js", "rs"])
         dups = [g for g in range(3) if crossfile and r.random() < 0.25]
         strs = [s for s in range(4) if crossfile and r.random() < 0.15]
         sub = r.choice(["", "", "pkg/", "pkg/inner/"])
-        if lang == "py":
+        fam = "ts" if lang == "js" else lang
+        if r.random() < 0.22 and sinks[fam] < 2:
+            sinks[fam] += 1
+            text = {"py": SINK_PY, "ts": SINK_TS, "rs": SINK_RS}[fam].format(i=j)
+            files.append([f"{sub}sink_{j}.{lang}", text])
+        elif lang == "py":
             files.append([f"{sub}mod_{j}.py", _py_file(r, j, dups, strs)])
         elif lang in ("ts", "js"):
             body = _ts_file(r, j, dups, strs)
@@ -124,13 +274,15 @@ def gen_case(seed: int, i, via: str = "api") -> dict:
             files.append([f"{sub}mod_{j}.{lang}", body])
         else:
             files.append([f"{sub}mod_{j}.rs", _rs_file(r, j)])
-    natural = r.random() < 0.15
-    perm = list(range(len(files) + (1 if via == "cli" else 0)))
-    r.shuffle(perm)
-    case = {"i": i, "via": via, "k": k, "files": files, "config": cfg, "sched": None if (natural or via == "cli") else perm,
-            "bad_config": bad}
+    parent = r.choice(PARENTS)
+    # under an exclusion-named parent an absolute spelling makes both runs skip everything: mostly use the relative spellings there
+    rel_w = 4 if parent not in ("", "tests", "test") else 1
+    spelling = r.choice(["abs", "abs"] + ["rel", "dot"] * rel_w if entry == "dir" else ["abs", "abs"] + ["rel"] * (2 * rel_w - 1))
+    case = {"i": i, "via": via, "k": k, "files": files, "config": cfg, "config_via": config_via, "root_config": root_cfg,
+            "entry": entry, "recursive": r.random() < 0.7, "parent": parent, "spelling": spelling,
+            "sched_seed": None if (via == "cli" or r.random() < 0.15) else r.randrange(1 << 30), "bad_config": bad}
     if via == "cli":
-        case["cmd"] = r.choice(["dry", "dry", "stringly-typed", "magic-numbers"])
+        case["cmd"] = cmd
     return case
 
 
@@ -182,92 +334,151 @@ def _try(fn):
         return None, f"{type(e).__name__}: {str(e)[:160]}"
 
 
+def _norm(case: dict) -> dict:
+    """defaults for the fields older corpus / replay files do not carry"""
+    c = dict(case)
+    c.setdefault("entry", "dir" if c.get("via") == "cli" else "files")
+    c.setdefault("recursive", True)
+    c.setdefault("parent", "")
+    c.setdefault("spelling", "abs")
+    c.setdefault("config_via", "root" if c.get("via") == "cli" else "ctor")
+    c.setdefault("root_config", {"kind": ".thailint.yaml", "content": c.get("config", {})} if c.get("via") == "cli" else None)
+    c.setdefault("sched_seed", None)
+    c.setdefault("sched", None)
+    return c
+
+
 def run_impl(case: dict) -> dict:
     """measure the tables and both runs for one case (own process: nested process pools are created here)"""
+    import random
     ensure_repo_on_path()
     install_failure_tap()
     import src.orchestrator.core as core
     from src.orchestrator.core import Orchestrator
+    try:
+        from loguru import logger as _lg      # the CLI helpers used for the tables log DEBUG lines to stderr
+        _lg.remove()
+    except Exception:  # noqa: BLE001
+        pass
+    case = _norm(case)
     res: dict = {"cpu": multiprocessing.cpu_count(), "notes": []}
+    old_cwd = os.getcwd()
     with scratch_dir("c7") as d:     # short paths: they are repeated in every violation handed to Coq
-        root = d / "p"
-        root.mkdir()
-        global _ROOT
-        _ROOT = str(root)
-        for rel, text in case["files"]:
-            p = root / rel
-            p.parent.mkdir(parents=True, exist_ok=True)
-            p.write_text(text)
-        if case["via"] == "cli":
-            (root / ".thailint.yaml").write_text(json.dumps(case["config"], indent=1) + "\n")
-            try:
-                from src.cli.utils import setup_base_orchestrator
-                o0 = setup_base_orchestrator([root], None, False, None)
-                proot, cfg = o0.project_root, o0.config
-            except Exception as e:  # noqa: BLE001
-                res["notes"].append(f"setup_base_orchestrator unavailable ({type(e).__name__}); using Orchestrator(project_root=target)")
-                o0 = Orchestrator(project_root=root)
-                proot, cfg = root, o0.config
-            paths = list(core._collect_files_fast(root, True))
-        else:
-            proot, cfg = root, case["config"]
-            paths = [root / rel for rel, _ in case["files"]]
-
-        def fresh():
-            return Orchestrator(project_root=proot, config=copy.deepcopy(cfg))
-
-        def finalize(o):
-            if hasattr(o, "_finalize_rules"):
-                return o._finalize_rules()
-            return o.lint_files([])
-
-        res["files"] = [str(p.relative_to(root)) for p in paths]
-        res["perfile"], res["errors"] = [], []
-        for p in paths:
-            vs, err = _try(lambda p=p: fresh().lint_file(p))
-            res["perfile"].append(vs)
-            if err:
-                res["errors"].append(err)
-        res["rep_nil"], _ = _try(lambda: finalize(fresh()))
-        res["rep_nil"] = res["rep_nil"] or []
-
-        def full():
-            o = fresh()
-            for p in paths:
-                o.lint_file(p)
-            return finalize(o)
-        res["rep_full"], _ = _try(full)
-        res["rep_full"] = res["rep_full"] or []
-        res["failures"] = drain_failures()
-        if case["via"] == "cli":
-            target = str(root)
-            outs = []
-            for extra in ([], ["--parallel"]):
-                rc, so, se = run_cli([case["cmd"], *extra, "--format", "json", target], cwd=d)
-                vs = parse_json_violations(so)
-                outs.append({"rc": rc, "vs": None if vs is None else [enc_json_violation(v) for v in vs], "stderr": se[-300:] if vs is None else ""})
-            res["seq"], res["seq_exit"] = outs[0]["vs"], outs[0]["rc"]
-            res["par"], res["par_exit"] = outs[1]["vs"], outs[1]["rc"]
-            res["cli_stderr"] = [o["stderr"] for o in outs]
-            res["sched"], res["ordered"] = list(range(len(paths))), False
-            return res
-        res["seq"], res["seq_err"] = _try(lambda: fresh().lint_files(paths))
-        res["failures"] += drain_failures()
-        orig = getattr(core, "as_completed", None)
-        ordered = case["sched"] is not None and orig is not None
-        if case["sched"] is not None and orig is None:
-            res["notes"].append("src.orchestrator.core has no as_completed to wrap: completion order not controlled")
         try:
-            if ordered:
-                core.as_completed = _controlled(case["sched"])
-            res["par"], res["par_err"] = _try(lambda: fresh().lint_files_parallel(paths, max_workers=case["k"]))
+            base = d / case["parent"] if case["parent"] else d
+            root = base / "p"
+            root.mkdir(parents=True)
+            global _ROOT
+            _ROOT = str(root)
+            for rel, text in case["files"]:
+                p = root / rel
+                p.parent.mkdir(parents=True, exist_ok=True)
+                p.write_text(text)
+            if case["root_config"]:
+                name, text = root_config_file(case["root_config"])
+                (root / name).write_text(text)
+            cfg_arg = None
+            if case["config_via"] == "file":
+                text = "# thai-lint configuration: built-in defaults\n" if case["config"] == {} else json.dumps(case["config"], indent=1) + "\n"
+                (root / "alt_config.yaml").write_text(text)
+            # ---- spelling of the targets
+            sp, entry = case["spelling"], case["entry"]
+            if entry == "dir":
+                cwd, target = {"abs": (d, root), "rel": (base, Path("p")), "dot": (root, Path("."))}[sp]
+            else:
+                cwd, target = (root, None) if sp == "rel" else (d, None)
+            os.chdir(cwd)
+            if case["config_via"] == "file":
+                cfg_arg = str(root / "alt_config.yaml") if sp == "abs" else str((target or Path(".")) / "alt_config.yaml")
+            # ---- how the orchestrator gets its configuration
+            if case["via"] == "cli":
+                try:
+                    from src.cli.utils import setup_base_orchestrator
+                    o0 = setup_base_orchestrator([target], cfg_arg, False, Path(cfg_arg).resolve().parent if cfg_arg else None)
+                    proot, cfg = o0.project_root, o0.config
+                except BaseException as e:  # noqa: BLE001  (sys.exit included)
+                    res["notes"].append(f"setup_base_orchestrator unavailable ({type(e).__name__}); using Orchestrator(project_root=target)")
+                    proot, cfg = root, Orchestrator(project_root=root).config
+                via = "assign"
+            else:
+                proot, cfg, via = root, case["config"], case["config_via"]
+
+            def fresh():
+                if via == "ctor":
+                    return Orchestrator(project_root=proot, config=copy.deepcopy(cfg))
+                o = Orchestrator(project_root=proot)
+                if via == "assign":
+                    o.config = copy.deepcopy(cfg)      # what the CLI's --config handling does
+                return o
+
+            def finalize(o):
+                if hasattr(o, "_finalize_rules"):
+                    return o._finalize_rules()
+                return o.lint_files([])
+
+            if entry == "dir":
+                paths = list(core._collect_files_fast(target, case["recursive"]))
+            else:
+                paths = [(root / rel) if sp == "abs" else Path(rel) for rel, _ in case["files"]]
+            res["files"] = [str(p) for p in paths]
+            res["perfile"], res["errors"] = [], []
+            for p in paths:
+                vs, err = _try(lambda p=p: fresh().lint_file(p))
+                res["perfile"].append(vs)
+                if err:
+                    res["errors"].append(err)
+            res["rep_nil"], _ = _try(lambda: finalize(fresh()))
+            res["rep_nil"] = res["rep_nil"] or []
+
+            def full():
+                o = fresh()
+                for p in paths:
+                    o.lint_file(p)
+                return finalize(o)
+            res["rep_full"], _ = _try(full)
+            res["rep_full"] = res["rep_full"] or []
+            res["failures"] = drain_failures()
+            if case["via"] == "cli":
+                outs = []
+                opts = (["--config", cfg_arg] if cfg_arg else []) + ([] if case["recursive"] else ["--no-recursive"])
+                for extra in ([], ["--parallel"]):
+                    rc, so, se = run_cli([case["cmd"], *opts, *extra, "--format", "json", str(target)], cwd=cwd, home=d)
+                    vs = parse_json_violations(so)
+                    outs.append({"rc": rc, "vs": None if vs is None else [enc_json_violation(v) for v in vs], "stderr": se[-300:] if vs is None else ""})
+                res["seq"], res["seq_exit"] = outs[0]["vs"], outs[0]["rc"]
+                res["par"], res["par_exit"] = outs[1]["vs"], outs[1]["rc"]
+                res["cli_stderr"] = [o["stderr"] for o in outs]
+                res["sched"], res["ordered"] = list(range(len(paths))), False
+                return res
+            if entry == "dir":
+                res["seq"], res["seq_err"] = _try(lambda: fresh().lint_directory(target, recursive=case["recursive"]))
+            else:
+                res["seq"], res["seq_err"] = _try(lambda: fresh().lint_files(paths))
+            res["failures"] += drain_failures()
+            sched = case["sched"]
+            if sched is None and case["sched_seed"] is not None:
+                sched = list(range(len(paths)))
+                random.Random(case["sched_seed"]).shuffle(sched)
+            orig = getattr(core, "as_completed", None)
+            ordered = sched is not None and orig is not None
+            if sched is not None and orig is None:
+                res["notes"].append("src.orchestrator.core has no as_completed to wrap: completion order not controlled")
+            try:
+                if ordered:
+                    core.as_completed = _controlled(sched)
+                if entry == "dir":
+                    res["par"], res["par_err"] = _try(lambda: fresh().lint_directory_parallel(target, recursive=case["recursive"], max_workers=case["k"]))
+                else:
+                    res["par"], res["par_err"] = _try(lambda: fresh().lint_files_parallel(paths, max_workers=case["k"]))
+            finally:
+                if orig is not None:
+                    core.as_completed = orig
+            drain_failures()   # parent-side log lines of the parallel run are not rule failures of this process
+            res["seq_exit"] = res["par_exit"] = 0
+            res["sched"] = sched if ordered else list(range(len(paths)))
+            res["ordered"] = ordered
         finally:
-            if orig is not None:
-                core.as_completed = orig
-        drain_failures()   # parent-side log lines of the parallel run are not rule failures of this process
-        res["seq_exit"] = res["par_exit"] = 0
-        res["sched"] = case["sched"] if ordered else list(range(len(paths)))
-        res["ordered"] = ordered
+            os.chdir(old_cwd)
     return res
 
 
@@ -426,7 +637,10 @@ def corpus_cases():
 
 
 def _summary(case, impl):
+    nc = _norm(case)
     return {"via": case["via"], "cmd": case.get("cmd"), "max_workers": case["k"], "n_files": len(impl["files"]), "config": case["config"],
+            "config_via": nc["config_via"], "root_config": nc["root_config"], "entry": nc["entry"], "recursive": nc["recursive"],
+            "spelling": nc["spelling"], "parent_dir": nc["parent"],
             "completion_order": impl["sched"] if impl["ordered"] else "uncontrolled",
             "sequential": "raises" if impl["seq"] is None else f"{len(impl['seq'])} violations",
             "parallel": "raises" if impl["par"] is None else f"{len(impl['par'])} violations",
@@ -435,13 +649,16 @@ def _summary(case, impl):
 
 def run(tier: str, seed: int, replay: str | None = None) -> int:
     chk = Check(PROP, tier, seed)
-    chk.rule = ("seeded multi-language projects (.py/.ts/.js/.rs, sub-directories) whose files share function bodies (DRY) and string sets "
-                "(stringly-typed) or share nothing, under generated configs (dry on/off, stringly on/off, nesting limits, ~10% invalid "
-                "values that raise ValueError); max_workers in 1..16 or None; file counts 2*workers-3 .. 2*workers+5 (both sides of the "
-                "sequential-fallback threshold); lint_files vs lint_files_parallel in-process with the completion order of the futures forced "
-                "to a seeded permutation (15% left uncontrolled), a few through the CLI (dry / stringly-typed / magic-numbers on a directory, --parallel vs plain, JSON + exit "
-                "code); a case is non-trivial when the file count is at or above the threshold (worker processes really run) ; distinct = distinct "
-                "(files, config, max_workers, schedule)")
+    chk.rule = ("seeded multi-language projects (.py/.ts/.js/.rs, sub-directories; ordinary modules sharing function bodies (DRY) and string "
+                "sets (stringly-typed) or nothing, plus 'kitchen sink' files that give every registered linter a finding, including findings "
+                "equal in every field) under generated configurations: explicit (constructor / assigned like --config / --config file) "
+                "incl. the boundary values {} / comment-only file / unrelated sections, next to a differing root .thailint.yaml / "
+                ".thailint.json / pyproject.toml; ~10% invalid values that raise ValueError; max_workers 1..16 or None; file counts "
+                "2*workers-3 .. 2*workers+5; entry points lint_files[_parallel] and lint_directory[_parallel] (recursive or not); targets spelled "
+                "absolute / relative / '.', the project placed under parents named like hard-coded exclusions and test markers; completion order "
+                "of the futures forced to a seeded permutation (15% uncontrolled); a few through the CLI (dry / stringly-typed / magic-numbers, "
+                "--parallel vs plain, --config, --no-recursive, JSON + exit code); results compared as multisets with multiplicity; a case is "
+                "non-trivial when the file count reaches the threshold (worker processes really run); distinct = distinct case description")
     chk.trusted_base += [
         "rule behaviour is an input of the model: per-file results (fresh Orchestrator per file) and the finalize() report are measured from the "
         "implementation and handed to the model as tables; that a worker process which serves several tasks gives each the result of a fresh "
@@ -477,7 +694,15 @@ def run(tier: str, seed: int, replay: str | None = None) -> int:
         n = len(impl["files"])
         eff = case["k"] or min(8, impl["cpu"])
         above = n >= 2 * eff
-        chk.count([case["files"], case["config"], case["k"], case["sched"], case["via"], case.get("cmd")], above and n > 0)
+        chk.count([case["files"], case["config"], case["k"], case.get("sched"), case.get("sched_seed"), case["via"], case.get("cmd"),
+                   case.get("entry"), case.get("spelling"), case.get("parent"), case.get("config_via"), case.get("root_config"), case.get("recursive")], above and n > 0)
+        nc = _norm(case)
+        chk.dist("entry:" + nc["entry"] + ("" if nc["recursive"] else ":non-recursive"))
+        chk.dist("spelling:" + nc["spelling"])
+        chk.dist("parent_dir:" + (nc["parent"] or "(plain)"))
+        chk.dist("config_via:" + nc["config_via"] + (":empty" if not case["config"] else ""))
+        chk.dist("root_config:" + (nc["root_config"]["kind"] if nc["root_config"] else "none"))
+        chk.dist("exact_duplicate_findings:" + ("yes" if any(len(vs) != len({json.dumps(v) for v in vs}) for vs in impl["perfile"] if vs) else "no"))
         chk.dist("via:" + case["via"] + (":" + case["cmd"] if case.get("cmd") else ""))
         chk.dist(f"max_workers:{case['k']}")
         chk.dist("files_vs_threshold:" + ("at" if n == 2 * eff else "above" if above else "below"))
@@ -485,7 +710,7 @@ def run(tier: str, seed: int, replay: str | None = None) -> int:
         chk.dist("crossfile_report:" + ("nonempty" if impl["rep_full"] else "empty"))
         chk.dist("config:" + ("invalid" if impl.get("errors") else "valid"))
         for rel in impl["files"]:
-            chk.dist("ext:" + (Path(rel).suffix or rel))
+            chk.dist("ext:" + (Path(rel).suffix or Path(rel).name))
         chk.sample(_summary(case, impl), 4)
         for note in impl["notes"]:
             if note not in chk.notes:
